@@ -9,8 +9,11 @@ NC == Len(Cls)
 Elems == [1..Deg -> 1..NC]
 Code(f) == FoldLeft(LAMBDA acc, i : acc * NC + (f[i] - 1), 0, [i \in 1..Deg |-> i])
 VARIABLE sc
+\* every zero / non-zero pattern of the coefficients (0 and p-1), whatever the stride: x with the pattern, y with its mirror image
+Patterns == [1..Deg -> {1, 3}]
 Init == \E f \in Elems, g \in Elems :
-            /\ (Code(f) * 7 + Code(g) * 13) % Stride = 0
+            /\ \/ (Code(f) * 7 + Code(g) * 13) % Stride = 0
+               \/ f \in Patterns /\ g = [i \in 1..Deg |-> f[Deg + 1 - i]]
             /\ sc = [x |-> [i \in 1..Deg |-> ToBytes(Cls[f[i]], ElemBytes)], y |-> [i \in 1..Deg |-> ToBytes(Cls[g[i]], ElemBytes)],
                      b |-> ToBytes(Cls[f[1]], ElemBytes), b2 |-> ToBytes(Cls[g[Deg]], ElemBytes)]
 Next == UNCHANGED sc
